@@ -183,4 +183,18 @@ META = {
         "note": _common_note + "daachorse contract as in C01 (longest pattern per end position is what the recorded state holds).",
         "technique": "Lean 4 proof (merge invariant instantiated at (token, rel, class) evaluations; loop = specSeg; row non-interference) + differential correspondence",
     },
+    "C10": {
+        "text": "Lean theorems on the mirrored feature extraction and example collection: the examples handed to the learner are exactly "
+                "one per annotated boundary, in order, labelled by the annotation, with the features of that boundary (C10_examples); a "
+                "sentence whose boundaries are all unknown contributes nothing, so adding it anywhere in a corpus leaves the training "
+                "problem unchanged (C10_unknown_neutral); a character / type n-gram feature is present, exactly once, iff it is an "
+                "n-gram [j, j+l) with 1<=l<=N inside the window [i+1-W, i+1+W) clipped to the text, with rel = j-i-1 — for all sizes "
+                "incl. N=0, W=0, N>2W (C10_char_ngram_spec, C10_type_ngram_spec); dictionary features are counted one per "
+                "dictionary-word occurrence touching the boundary, left/inside/right by length bucket (C10_dict_spec, "
+                "C10_dict_matches). Tied to /repo through hook H2 (Trainer::verif_examples): the stored examples, with feature ids "
+                "decoded, must equal the model's examples and an independent enumeration in the harness.",
+        "design_ref": "DESIGN.md §6 C10",
+        "note": _common_note + "Feature-id assignment and the sparse-vector layout handed to liblinear are not modelled (the hook decodes ids back to features).",
+        "technique": "Lean 4 proof (counting lemmas over the mirrored loops) + hook-based differential correspondence",
+    },
 }
